@@ -134,7 +134,25 @@ class TimeGen(ProgGen):
                               self.try_items(sc, 1, d - 1, ctx) if r.random() < 0.4 else None))
             elif c < 0.90 and ctx.get('dfuncs') and self.chance('p_dcall'):
                 f = r.choice(ctx['dfuncs'])
-                out.append(ExprStmt(Call(f, [Lit(INT, r.randint(0, 4)) if t == INT else self.cond(sc) for _, t, _ in f.params])))
+                call = Call(f, [Lit(INT, r.randint(0, 4)) if t == INT else self.cond(sc) for _, t, _ in f.params])
+                if f.ret == INT and r.random() < 0.7:
+                    # a defeat call nested in an expression (the exit analysis only sees statement-level calls)
+                    k = r.random()
+                    if k < 0.3:
+                        out.append(ExprStmt(Call('write', [call])))
+                    elif k < 0.55:
+                        out.append(Assign(self.gvar(), Bin('+', call, Lit(INT, 1))))
+                    elif k < 0.8:
+                        out.append(If(Bin('>', call, Lit(INT, r.randint(0, 3))), [self.mark()]))
+                    elif ctx.get('ret') == INT:
+                        out.append(Ret(call))
+                        break
+                    else:
+                        nm = self.name('dv')
+                        sc[nm] = V(INT)
+                        out.append(Decl(nm, INT, call))
+                else:
+                    out.append(ExprStmt(call))
             elif c < 0.94 and self.funcs:
                 out.extend(self.call_stmt(sc, 1))
             elif c < 0.96 and self.chance('p_arrays_in_try'):
@@ -155,7 +173,7 @@ class TimeGen(ProgGen):
         recursive = r.random() < 0.25
         nm = f'!d{idx}'
         params = [('k', INT, False)] + ([('c', BOOL, False)] if r.random() < 0.3 else [])
-        ret = EMPTY if r.random() < 0.8 else INT
+        ret = EMPTY if r.random() < 0.6 else INT
         f = Func(nm, params, ret)
         sc = dict(self.gsc)
         sc['k'] = V(INT, frozen=True)
